@@ -6,9 +6,9 @@ CFG = dict(
           "and no goroutine), C14_idle (Q: quiescent and every issued call terminated => registry empty, no stream loop alive, the "
           "read loop holds nothing) and C14_cancel_released (Q: no stream loop survives the context of its RPC) in coq/Props/C14.v, "
           "over all label sequences of the small-step client model coq/Model/Client.v (unbounded calls, any inbound envelopes, "
-          "faults, interleavings); the model is run lock-step against the real client on every run. Server half (coq/Model/Server.v, Proofs/ServerInv.v, ServerLive.v, over all label sequences): C14_server_bounded (the registry of a server connection has exactly one entry per live stream-handler goroutine, in every reachable state) and C14_server_idle (Q: quiescent, every handler returned, writes not blocked or connection over => registry empty); the goroutine side is C12_never_stalls / C10_no_leak; the server model is run lock-step against the real server by ./check C10 and C12.",
+          "faults, interleavings); the model is run lock-step against the real client on every run. End to end over the product coq/Model/Sys.v (Proofs/SysRelease.v: composition of sy's projection, sv's server release lemmas and cw's cancellation theorem): C14_sys_released_partial (in every reachable state of the product, however the client ended the RPC, a stream handler whose goroutine has ended holds nothing on the server connection; partial: 'the handler has returned' cannot be dropped, the handler is the environment) and C14_sys_ctx_release_Q (Q: after the caller's context ended on a stream without a trailer, exactly one reset is on the wire, the context of every handler registered under the id is cancelled, and one that has returned is gone and unregistered; hypothesis no_wfail: the write-fault case, where D-14f lived, is covered by the rig only). Server half (coq/Model/Server.v, Proofs/ServerInv.v, ServerLive.v, over all label sequences): C14_server_bounded (the registry of a server connection has exactly one entry per live stream-handler goroutine, in every reachable state) and C14_server_idle (Q: quiescent, every handler returned, writes not blocked or connection over => registry empty); the goroutine side is C12_never_stalls / C10_no_leak; the server model is run lock-step against the real server by ./check C10 and C12.",
     props="Props/C14.v",
-    theorems=["C14_bounded", "C14_released", "C14_idle", "C14_cancel_released", "C14_final_released", "C14_server_bounded", "C14_server_idle", "C14_server_released", "C14_server_release_enabled", "C14_server_released_Q", "C14_server_collections_bounded"],
+    theorems=["C14_bounded", "C14_released", "C14_idle", "C14_cancel_released", "C14_final_released", "C14_server_bounded", "C14_server_idle", "C14_sys_released_partial", "C14_sys_ctx_release_Q", "C14_server_released", "C14_server_release_enabled", "C14_server_released_Q", "C14_server_collections_bounded"],
     imports=["Model.Client", "Check.ClientC", "Check.C14c"],
     case_type="c14case",
     find_bad_from="Check.C14c.find_bad_from",
